@@ -84,6 +84,8 @@ enum Resp {
 
 #[derive(Clone, Debug)]
 struct Call {
+    /// what the wrapped service's `poll_ready` says before this call: 0 ready, 1 pending, 2+n `Err(n)`
+    ready: u32,
     method: Vec<u8>,
     version: u8,
     uri: Vec<u8>,
@@ -175,6 +177,11 @@ fn render(c: &Case) -> String {
     }
     o.push(c.calls.len().to_string());
     for k in &c.calls {
+        if k.ready == 1 {
+            o.push("!p".into());
+        } else if k.ready >= 2 {
+            o.push(format!("!e{}", k.ready - 2));
+        }
         o.extend([hex(&k.method), k.version.to_string(), hex(&k.uri)]);
         r_h(&k.hdrs, &mut o);
         r_ext(&k.ext, &mut o);
@@ -297,6 +304,20 @@ fn parse(case: &str) -> Option<Case> {
     let nc: usize = t.num()?;
     let mut calls = Vec::new();
     for _ in 0..nc {
+        // optional readiness marker: `!p` pending, `!e<n>` error n (default: ready)
+        let mut ready = 0u32;
+        if let Some(tok) = t.t.get(t.i).copied() {
+            if let Some(m) = tok.strip_prefix('!') {
+                t.i += 1;
+                ready = if m == "p" {
+                    1
+                } else if let Some(n) = m.strip_prefix('e') {
+                    2 + n.parse::<u32>().ok()?
+                } else {
+                    return None;
+                };
+            }
+        }
         let method = t.bytes()?;
         let version = t.num()?;
         let uri = t.bytes()?;
@@ -308,7 +329,7 @@ fn parse(case: &str) -> Option<Case> {
             "r" => Resp::R { status: t.num()?, version: t.num()?, hdrs: t.h()?, ext: t.ext()?, body: t.body()? },
             _ => return None,
         };
-        calls.push(Call { method, version, uri, hdrs, ext, body, resp });
+        calls.push(Call { ready, method, version, uri, hdrs, ext, body, resp });
     }
     if t.i != t.t.len() {
         return None;
@@ -531,6 +552,7 @@ struct Recorder {
     log: Log,
     calls: Arc<Mutex<usize>>,
     resps: Arc<Vec<Resp>>,
+    ready: Arc<Vec<u32>>,
     cur: Arc<Mutex<usize>>,
 }
 impl Service<http::Request<ScriptBody>> for Recorder {
@@ -538,7 +560,11 @@ impl Service<http::Request<ScriptBody>> for Recorder {
     type Error = InnerErr;
     type Future = std::future::Ready<Result<Self::Response, Self::Error>>;
     fn poll_ready(&mut self, _cx: &mut Context<'_>) -> Poll<Result<(), Self::Error>> {
-        Poll::Ready(Ok(()))
+        match self.ready[*self.cur.lock().unwrap()] {
+            0 => Poll::Ready(Ok(())),
+            1 => Poll::Pending,
+            n => Poll::Ready(Err(InnerErr(n - 2))),
+        }
     }
     fn call(&mut self, req: http::Request<ScriptBody>) -> Self::Future {
         *self.calls.lock().unwrap() += 1;
@@ -717,7 +743,8 @@ pub fn execute(case: &str) -> String {
     let calls = Arc::new(Mutex::new(0usize));
     let cur = Arc::new(Mutex::new(0usize));
     let resps: Arc<Vec<Resp>> = Arc::new(c.calls.iter().map(|k| k.resp.clone()).collect());
-    let inner = Recorder { log: log.clone(), calls: calls.clone(), resps, cur: cur.clone() };
+    let readiness: Arc<Vec<u32>> = Arc::new(c.calls.iter().map(|k| k.ready).collect());
+    let inner = Recorder { log: log.clone(), calls: calls.clone(), resps, ready: readiness, cur: cur.clone() };
 
     // the scripted interceptor: FnMut with a call counter as its state
     let scripts = c.scripts.clone();
@@ -795,8 +822,13 @@ pub fn execute(case: &str) -> String {
         let mut cx = Context::from_waker(Waker::noop());
         match svc.poll_ready(&mut cx) {
             Poll::Ready(Ok(())) => {}
-            _ => {
-                log.lock().unwrap().push("not-ready".into());
+            Poll::Pending => {
+                // a tower caller does not call a service that is not ready
+                log.lock().unwrap().push("notready pending".into());
+                continue;
+            }
+            Poll::Ready(Err(InnerErr(n))) => {
+                log.lock().unwrap().push(format!("notready err {}", n));
                 continue;
             }
         }
@@ -1677,6 +1709,7 @@ fn gen_resp(rng: &mut Rng) -> Resp {
 fn gen_call(rng: &mut Rng) -> Call {
     let focus: Vec<Vec<u8>> = RESERVED.iter().map(|s| s.as_bytes().to_vec()).collect();
     Call {
+        ready: 0,
         method: rng.pick(&METHODS).as_bytes().to_vec(),
         version: *rng.pick(&VERSIONS),
         uri: canon_uri(*rng.pick(&URIS)),
@@ -1704,6 +1737,7 @@ fn via(rng: &mut Rng) -> String {
 
 fn simple_call(hdrs: H) -> Call {
     Call {
+        ready: 0,
         method: b"POST".to_vec(),
         version: 2,
         uri: canon_uri("/pkg.Service/Method"),
@@ -2051,6 +2085,25 @@ pub fn generate(tier: &str, rng: &mut Rng) -> Vec<String> {
         let nscripts = rng.range(0, 4);
         let scripts: Vec<Script> = (0..nscripts).map(|_| gen_script(rng, &present, 40)).collect();
         push(Case { kind: "seq".into(), via: via(rng), scripts, calls });
+    }
+    // ---- back-pressure: the wrapped service is not ready before some calls
+    let n_ready = if thorough { 5_000 } else { 400 };
+    for _ in 0..n_ready {
+        let ncalls = rng.range(1, 5);
+        let calls: Vec<Call> = (0..ncalls)
+            .map(|_| {
+                let mut k = gen_call(rng);
+                k.ready = match rng.below(5) {
+                    0 => 1,
+                    1 => 2 + rng.below(50) as u32,
+                    _ => 0,
+                };
+                k
+            })
+            .collect();
+        let nscripts = rng.range(0, 2);
+        let scripts: Vec<Script> = (0..nscripts).map(|_| gen_script(rng, &[], 40)).collect();
+        push(Case { kind: "ready".into(), via: via(rng), scripts, calls });
     }
     // ---- "malformed": hostile-but-typed inputs (nothing here is parsed by tonic, so the
     // adversarial inputs are odd names / values / statuses rather than broken bytes)
